@@ -135,8 +135,8 @@ func (session *HermesSession) Run(workingDir string, args []string, logID string
 		_, OUTY := g.Datum(DAYOUT)
 		// month and day of the annual output; its day of the year differs between leap and non-leap years
 		_, outMonth, outDayOfMonth := KalenderDate(OUTY)
-		if OUTY >= g.ENDE {
-			g.ENDE = OUTY + 1
+		if OUTY > g.ENDE {
+			g.ENDE = OUTY
 		}
 
 		PR = SetPrognoseDate(PROG, &g)
